@@ -103,6 +103,20 @@ func Stale(c *core.Ctx, rule string, pkgs []*packages.Package, floorLits, floorR
 					return !(id.Pos() >= r.call.Args[0].Pos() && id.End() <= r.call.Args[0].End())
 				})
 			}
+			// `x, s = st(s)`: the statement that runs on s also rebinds s to the state the run produced — from here on s
+			// *is* the newest state
+			if as, ok := r.blk.Nodes[r.idx].(*ast.AssignStmt); ok {
+				rebinds := false
+				for _, l := range as.Lhs {
+					if objOf(info, l) == r.arg {
+						rebinds = true
+					}
+				}
+				if rebinds {
+					c.Add(rule, key, r.call.Pos(), core.Discharged, "the run's own assignment rebinds "+r.arg.Name()+" to the new state")
+					continue
+				}
+			}
 			// same node as the run: uses outside the call expression, e.g. `return st(s), s`... evaluated left to right; treat as stale too
 			if useIn(r.blk.Nodes[r.idx]) {
 				bad = r.blk.Nodes[r.idx]
@@ -565,4 +579,56 @@ func RunOnce(c *core.Ctx, rule string, p *packages.Package, floor int) {
 		}
 	}
 	c.Floor(rule, "StateT methods", n, floor)
+}
+
+// Rerunnable — R-RERUNNABLE: a StateT is a value that can be run any number of times.
+//
+// A func(S)(Try[_],S) literal that pulls from an fp.Iterator captured from the enclosing function consumes it on its
+// first run: the second run of the same StateT (a retry, a Traverse that uses it for several elements, Sequence of the
+// same value twice) sees an exhausted iterator and silently computes something else.
+func Rerunnable(c *core.Ctx, rule string, pkgs []*packages.Package, floor int) {
+	c.Rule(rule, "no func(S)(Try[_],S) literal calls a method of an fp.Iterator that is captured from the enclosing function (a one-shot cursor): the iterator is drained when the StateT is built, or converted to a persistent sequence first, so that every run of the StateT computes the same program")
+	n := 0
+	for _, fb := range funcBodies(c, pkgs) {
+		if fb.Lit == nil {
+			continue
+		}
+		info := fb.Pkg.TypesInfo
+		tv, ok := info.Types[fb.Lit]
+		if !ok {
+			continue
+		}
+		sig, _ := tv.Type.Underlying().(*types.Signature)
+		if stateShape(sig) == nil {
+			continue
+		}
+		n++
+		var bad *ast.CallExpr
+		var cur types.Object
+		ast.Inspect(fb.Lit.Body, func(x ast.Node) bool {
+			call, ok := x.(*ast.CallExpr)
+			if !ok || bad != nil {
+				return true
+			}
+			sel, ok := ast.Unparen(call.Fun).(*ast.SelectorExpr)
+			if !ok {
+				return true
+			}
+			o, ok := objOf(info, sel.X).(*types.Var)
+			if !ok || cursorKind(o.Type()) != "Iterator" {
+				return true
+			}
+			if o.Pos() >= fb.Lit.Pos() && o.Pos() <= fb.Lit.End() {
+				return true // created inside the run: fresh every time
+			}
+			bad, cur = call, o
+			return true
+		})
+		if bad != nil {
+			c.Add(rule, fb.Name, bad.Pos(), core.Violated, "the state function calls "+exprString(bad.Fun)+" on "+cur.Name()+", an iterator captured from the enclosing function: the first run consumes it, every later run of the same StateT sees it exhausted and returns a different result")
+		} else {
+			c.Add(rule, fb.Name, fb.Lit.Pos(), core.Discharged, "no captured one-shot cursor is consumed by the state function")
+		}
+	}
+	c.Floor(rule, "state-shaped literals", n, floor)
 }
